@@ -1367,6 +1367,7 @@ namespace occa {
       if (!(nextKeyword.type() & keywordType::while_)) {
         tokenContext.printError("Expected [while] condition after [do]");
         success = false;
+        smntContext.popUp();
         delete &whileSmnt;
         return NULL;
       }
@@ -1389,11 +1390,11 @@ namespace occa {
         return NULL;
       }
       whileSmnt.setCondition(condition);
+      smntContext.popUp();
 
       if (!(token_t::safeOperatorType(tokenContext[0]) & operatorType::semicolon)) {
         tokenContext.printError("[5] Expected a [;]");
         success = false;
-        smntContext.popUp();
         delete &whileSmnt;
         return NULL;
       }
